@@ -702,7 +702,8 @@ Section Steps.
   | SPrefix (p : string)       (* PrefixTransformer of a layer with namePrefix p *)
   | SSuffix (s : string)       (* SuffixTransformer *)
   | SNamespace (ns : string)   (* NamespaceTransformer *)
-  | SHash (h : string).        (* HashTransformer, h = the content hash *)
+  | SHash (h : string)         (* HashTransformer, h = the content hash *)
+  | STouch.                    (* PatchTransformer on a selected target: StorePreviousId, the name is kept *)
 
   Definition step_ok (st : rename_step) : bool :=
     match st with
@@ -710,6 +711,7 @@ Section Steps.
     | SSuffix s => no_char ","%char s
     | SNamespace ns => good ns
     | SHash h => no_char ","%char h
+    | STouch => true
     end.
 
   Definition apply_step (st : rename_step) (r : resource) : res resource :=
@@ -718,6 +720,7 @@ Section Steps.
     | SSuffix s => suffix_one cs suffix_fs suffix_skip s r
     | SNamespace ns => ns_one cs namespace_fs ns r
     | SHash h => hash_one cs nonstr h r
+    | STouch => Ok (store_previous_id cs r)
     end.
 
   Fixpoint apply_steps (l : list rename_step) (r : resource) : res resource :=
@@ -733,7 +736,24 @@ Section Steps.
     | SSuffix s => n ++ s
     | SNamespace ns => ns          (* only objects of kind Namespace are renamed, to the namespace *)
     | SHash h => n ++ "-" ++ h
+    | STouch => n
     end.
+
+  (* StorePreviousId alone: the current id is recorded once more *)
+  Lemma touch_hist r :
+    wf_res r ->
+    wf_res (store_previous_id cs r) /\ grows r (store_previous_id cs r) /\
+    get_name (r_node (store_previous_id cs r)) = get_name (r_node r).
+  Proof.
+    intros [Hh Hn].
+    assert (E: with_node (store_previous_id cs r) (r_node r) = store_previous_id cs r)
+      by (rewrite store_previous_id_eq; reflexivity).
+    assert (N: r_node (store_previous_id cs r) = r_node r) by (rewrite store_previous_id_eq; reflexivity).
+    pose proof (store_then_update cs r (r_node r) (conj Hh Hn) Hn eq_refl eq_refl) as HS.
+    cbv zeta in HS. rewrite E in HS. destruct HS as [W Hr].
+    split; [exact W|]. split; [|now rewrite N].
+    split; [right; eexists; exact Hr|]. rewrite N. split; reflexivity.
+  Qed.
 
   Lemma apply_step_full st r r' :
     step_ok st = true -> wf_res r -> apply_step st r = Ok r' ->
@@ -745,6 +765,7 @@ Section Steps.
     - eapply suffix_one_hist; eauto.
     - eapply ns_one_hist; eauto.
     - eapply hash_one_hist; eauto.
+    - inv H. destruct (touch_hist r Hw) as (A & B & C). split; [exact A|]. split; [exact B|]. left. exact C.
   Qed.
 
   Lemma apply_step_hist st r r' :
